@@ -4,7 +4,7 @@
 # worktree /tmp/vm/repo + isolated copy of the machinery), shrinking only the class that matches.
 C=$1; H=$2; CLS=$3; NAME=$4; SEED=${5:-20260928}
 ROOT=$(cd "$(dirname "$0")/.." && pwd); VM=${VERIF_VM:-/tmp/vm}
-rsync -a --delete --exclude build --exclude evidence --exclude replays --exclude seeded --exclude .git "$ROOT/" $VM/verif/
+mkdir -p $VM; rsync -a --delete --exclude build --exclude evidence --exclude replays --exclude seeded --exclude .git "$ROOT/" $VM/verif/
 mkdir -p $VM/verif/evidence $VM/verif/replays; rm -f $VM/verif/replays/*.plan
 [ -d $VM/repo ] || git -C /repo worktree add --detach $VM/repo HEAD >/dev/null 2>&1
 git -C $VM/repo checkout -q -- . ; git -C $VM/repo checkout -q --detach "$H^"
